@@ -1,4 +1,5 @@
-(* Store/System.v — any number of connections over one dict-backend MailboxSet.
+(* Store/System.v — any number of connections over one set of mailboxes (dict backend:
+   CreateBox, maildir backend: CreateMaildir).
    Definitions only.
 
    sys     = { sy_boxes : boxes; sy_sess : session id -> session }
@@ -15,6 +16,7 @@
            | Deliver box fl recent content   a message stored without any connection
                               (MailboxData.append as used by the demo loader / delivery)
            | CreateBox box readonly          MailboxSet.add_mailbox (+ the loader's _readonly)
+           | CreateMaildir box               a mailbox of the maildir backend (uids from 1)
    API
      sys_empty
      step : sys -> label -> sys * list resp     responses written to connection s
@@ -30,7 +32,13 @@
      client_run   cl rs news  apply a response list; [news] supplies the identities
                             (uids) of messages announced by EXISTS; None = the
                             client cannot follow (EXPUNGE out of range, EXISTS
-                            shrinking, a label that names another message) *)
+                            shrinking, a label that names another message)
+   What the clients believe about flags:
+     cflags                 uid -> flags: the last FETCH read for the message, or the client's
+                            own arithmetic after a successful STORE.SILENT (cf_silent)
+     cf_label cl cf l rs    the belief of the acting connection after label l answered rs
+     cfs_next, cfs_step, cfs_exec, cfs_start   all connections along a label sequence
+     fl_equiv               equal as sets, \Recent aside *)
 From PV Require Import Base.Prelude Store.Base Store.Flags Store.ModSeq Store.Mailbox
      Store.View Store.Compare Store.Session Wire.SeqSet.
 
@@ -66,7 +74,8 @@ Inductive label :=
 | IdleWake (s : N)
 | IdleDone (s : N)
 | Deliver (box : N) (fl : flags) (recent : bool) (content : N)
-| CreateBox (box : N) (readonly : bool).
+| CreateBox (box : N) (readonly : bool)
+| CreateMaildir (box : N).
 
 (* CommandResponse.add_untagged: FETCH responses merge by sequence number
    (dict union, the later response wins per attribute) *)
@@ -123,7 +132,7 @@ Definition apply_grant (ss : list (N * session)) (g : N * N) : list (N * session
 (* fork the selected mailbox of a finished command against its box *)
 Definition fork_in (bs : boxes) (s : selected) (with_uid : bool) : selected * list resp :=
   match aget (sel_box s) bs with
-  | Some b => fork (cached_of b) with_uid s
+  | Some b => fork (cached_of b (sel_view s)) with_uid s
   | None => (s, [Bug])
   end.
 
@@ -149,7 +158,7 @@ Definition idle_wake (sy : sys) (me : N) : sys * list resp :=
     match aget (sel_box s) (sy_boxes sy) with
     | None => (sy, [Bug])
     | Some b =>
-      let '(s', u) := fork (cached_of b) false (sync b s) in
+      let '(s', u) := fork (cached_of b (sel_view (sync b s))) false (sync b s) in
       (MkSys (sy_boxes sy) (aset me (MkSess (Some s') true) (sy_sess sy)), u)
     end
   | _ => (sy, [])
@@ -180,7 +189,12 @@ Definition step (sy : sys) (l : label) : sys * list resp :=
   | CreateBox name ro =>
     match aget name (sy_boxes sy) with
     | Some _ => (sy, [])
-    | None => (MkSys (sy_boxes sy ++ [(name, mb_new ro)]) (sy_sess sy), [])
+    | None => (MkSys (sy_boxes sy ++ [(name, mb_new false ro)]) (sy_sess sy), [])
+    end
+  | CreateMaildir name =>
+    match aget name (sy_boxes sy) with
+    | Some _ => (sy, [])
+    | None => (MkSys (sy_boxes sy ++ [(name, mb_new true false)]) (sy_sess sy), [])
     end
   end.
 
@@ -201,10 +215,15 @@ Definition rw_selected_on (sy : sys) (name : N) (s : N) : bool :=
 Definition pick_ok (sy : sys) (me : N) (name : N) (pick : option N) : bool :=
   if rw_selected_on sy name me
   then match pick with Some p => (p =? me)%N | None => false end
-  else match pick with
-       | Some p => rw_selected_on sy name p
-       | None => negb (existsb (fun ks => rw_selected_on sy name (fst ks)) (sy_sess sy))
-       end.
+  else
+    let md := match aget name (sy_boxes sy) with Some b => mb_md b | None => false end in
+    if md
+    then (* maildir: every session has its own MailboxSet, hence its own SelectedSet *)
+         match pick with None => true | Some _ => false end
+    else match pick with
+         | Some p => rw_selected_on sy name p
+         | None => negb (existsb (fun ks => rw_selected_on sy name (fst ks)) (sy_sess sy))
+         end.
 Definition label_ok (sy : sys) (l : label) : bool :=
   match l with
   | Cmd s (CAppend name _ pick) | Cmd s (CCopy _ _ name pick) | Cmd s (CMove _ _ name pick) =>
@@ -300,3 +319,58 @@ Fixpoint shadow_exec (st : sys * (N -> option (list N))) (ls : list label)
   | [] => Some st
   | l :: r => match shadow_step st l with Some st' => shadow_exec st' r | None => None end
   end.
+
+(* ------------------------------------- what a client believes about flags *)
+(* uid -> the flag list of the last FETCH response the client read for that message
+   (the uid is the identity C01 shows the sequence number denotes); after a successful
+   STORE.SILENT of its own the client computes the new value itself *)
+Definition cflags := list (N * flags).
+Definition cf_step (cf : cflags) (r : resp) : cflags :=
+  match r with Fetch _ u fl _ => aset u fl cf | _ => cf end.
+Definition cf_run (cf : cflags) (rs : list resp) : cflags := fold_left cf_step rs cf.
+(* the messages a sequence set addresses, computed from the client's own list *)
+Definition client_targets (cl : list N) (sset : seqset) (by_uid : bool) : list N :=
+  map snd (view_select sset by_uid (MkView cl [] [] [])).
+Definition cf_silent (cl : list N) (cf : cflags) (sset : seqset) (by_uid : bool) (op : flagop)
+           (fl : flags) : cflags :=
+  fold_left (fun cf u => match aget u cf with
+                         | Some f => aset u (flagop_apply op f (perm_intersect (fs_of fl))) cf
+                         | None => cf end)
+            (client_targets cl sset by_uid) cf.
+Definition tagged_ok (rs : list resp) : bool :=
+  existsb (fun r => match r with Tagged OK _ => true | _ => false end) rs.
+Definition cf_label (cl : list N) (cf : cflags) (l : label) (rs : list resp) : cflags :=
+  let cf0 := match l with
+             | Cmd _ (CStore sset by_uid op fl true) =>
+               if tagged_ok rs then cf_silent cl cf sset by_uid op fl else cf
+             | _ => cf
+             end in
+  cf_run cf0 rs.
+
+(* all connections: [cfs s] = the belief of connection s; the client's message list is the
+   server's view (C01_clients_in_sync) *)
+Definition cfs_next (sy : sys) (l : label) (sy' : sys) (rs : list resp) (cfs : N -> cflags)
+  : N -> cflags :=
+  match label_actor l with
+  | None => cfs
+  | Some s =>
+    match view_of sy' s with
+    | None => fun i => if (i =? s)%N then [] else cfs i
+    | Some _ =>
+      let cf := if starts_fresh sy l then [] else cfs s in
+      let cl := match view_of sy s with Some v => v | None => [] end in
+      fun i => if (i =? s)%N then cf_label cl cf l rs else cfs i
+    end
+  end.
+Definition cfs_step (st : sys * (N -> cflags)) (l : label) : sys * (N -> cflags) :=
+  let '(sy, cfs) := st in
+  let '(sy', rs) := step sy l in
+  (sy', cfs_next sy l sy' rs cfs).
+Definition cfs_exec (st : sys * (N -> cflags)) (ls : list label) : sys * (N -> cflags) :=
+  fold_left cfs_step ls st.
+
+(* the start: no mailbox, no session, no client knows anything *)
+Definition cfs_start : sys * (N -> cflags) := (sys_empty, fun _ => []).
+
+(* equal as sets, \Recent aside *)
+Definition fl_equiv (f g : flags) : Prop := forall x, x <> F_RECENT -> (In x f <-> In x g).
